@@ -13,7 +13,8 @@ BIN=$COV/target/debug/git-ai
 case "$1" in
 build)
   mkdir -p $COV
-  cd /repo && RUSTFLAGS="--cfg git_ai_verif -C instrument-coverage" CARGO_TARGET_DIR=$COV/target cargo build --offline --bin git-ai
+  # (build scripts of an instrumented build write default_*.profraw into the current directory: keep them out of /repo)
+  cd /repo && LLVM_PROFILE_FILE=$COV/build-%p.profraw RUSTFLAGS="--cfg git_ai_verif -C instrument-coverage" CARGO_TARGET_DIR=$COV/target cargo build --offline --bin git-ai
   ;;
 run)
   id=$2; tier=${3:-quick}
